@@ -186,6 +186,7 @@ type Opts struct {
 	MaxSmall   int  // records per section in the ordinary case (default 4)
 	ManyExtra  bool // allow 250..300 additional records (ARCOUNT across 255/256)
 	Big        bool // allow messages of tens of KiB
+	Huge       bool // allow messages that only fit into 64 KiB because they compress (thousands of records under one long owner)
 	NoOPT      bool
 	MaxExtra   int // hard cap on additional records, 0 = none
 	PlainNames bool
@@ -284,6 +285,44 @@ func Gen(t *rapid.T, o Opts) Spec {
 		nAn, nNs = max(nAn, 1), max(nNs, 1)
 	case shape == 2:
 		nAn, nNs, nEx = 0, 0, 0 // bare query
+	case shape == 3 && o.Huge:
+		// far beyond 64 KiB uncompressed, well below it compressed: many small records whose owner
+		// (and, for some kinds, RDATA name) is one long name
+		var long wm.Name
+		for i, nl := 0, rapid.IntRange(3, 5).Draw(t, "longlabels"); i < nl; i++ {
+			long = append(long, gen.Label(t, gen.NameOpts{MaxLabel: rapid.IntRange(8, 15).Draw(t, "longlabel"), Plain: no.Plain, Long: true}))
+		}
+		wl := long.WireLen()
+		s.Names = append(s.Names, wm.EscName(long))
+		li := len(s.Names) - 1
+		lo := 66000/(wl+14) + 1
+		hi := max(lo, 56000/20)
+		n := rapid.IntRange(lo, hi).Draw(t, "hugecount")
+		kind := rapid.SampledFrom([]string{"A", "A", "AAAA", "NS", "MX"}).Draw(t, "hugekind")
+		if kind == "AAAA" || kind == "MX" {
+			n = max(lo, n*16/30)
+		}
+		sec := rapid.IntRange(0, 2).Draw(t, "hugesec")
+		recs := make([]Rec, n)
+		for i := range recs {
+			recs[i] = Rec{Kind: kind, Owner: li, Target: li, Class: 1, TTL: uint32(i), Num: uint16(i), Data: []byte{10, byte(i >> 16), byte(i >> 8), byte(i), 0, 0, 0, 0, 0, 0, 0, 0, 0, 0, 0, 1}}
+			if kind == "A" {
+				recs[i].Data = recs[i].Data[:4]
+			}
+		}
+		s.Compress = true
+		switch sec {
+		case 0:
+			s.Answer = append(s.Answer, recs...)
+		case 1:
+			s.Ns = append(s.Ns, recs...)
+		default:
+			s.Extra = append(s.Extra, recs...)
+		}
+		if len(s.Question) > 0 && rapid.Bool().Draw(t, "hugeq") {
+			s.Question[0].Name = li
+		}
+		nAn, nNs, nEx = min(nAn, 1), min(nNs, 1), min(nEx, 1)
 	}
 	if o.MaxExtra > 0 && nEx > o.MaxExtra {
 		nEx = o.MaxExtra
